@@ -576,6 +576,11 @@ type Explorer struct {
 	MaxPoints  int
 	Stop       func() bool
 	Capped     bool
+	// Shard/NShards split the exploration between processes: the alternatives of the root
+	// execution are dealt out round-robin; shard 0 also checks the root execution itself.
+	Shard, NShards int
+	topAlt         int
+	OnDiscard      func(e *Exec)
 }
 
 func (x *Explorer) cost(e *Exec, upto int) int {
@@ -603,6 +608,14 @@ func altCost(p pointRec, alt int) int {
 	return 0
 }
 
+// Discard is called instead of Check for an execution this shard does not judge (it lets the
+// harness release resources of that execution).
+func (x *Explorer) Discard(e *Exec) {
+	if x.OnDiscard != nil {
+		x.OnDiscard(e)
+	}
+}
+
 // Explore enumerates every execution whose deviation count (preemptions + environment
 // timer fires) is at most Bound.
 func (x *Explorer) Explore() {
@@ -615,15 +628,22 @@ func (x *Explorer) explore(prefix []int) {
 		return
 	}
 	e := Run(prefix, x.Opt, x.Body)
-	x.Executions++
-	x.Points += len(e.points) - len(prefix)
+	root := prefix == nil
+	if !(root && x.NShards > 1 && x.Shard != 0) {
+		x.Executions++
+		x.Points += len(e.points) - len(prefix)
+	}
 	if len(e.points) > x.MaxPoints {
 		x.MaxPoints = len(e.points)
 	}
 	if e.Diverged != "" {
 		panic("vsched: " + e.Diverged)
 	}
-	x.Check(e)
+	if root && x.NShards > 1 && x.Shard != 0 {
+		x.Discard(e) // only shard 0 judges the root execution; the others still need its choice points
+	} else {
+		x.Check(e)
+	}
 	base := x.cost(e, len(prefix))
 	choices := e.Choices()
 	c := base
@@ -632,6 +652,12 @@ func (x *Explorer) explore(prefix []int) {
 		for alt := 1; alt < len(p.enabled); alt++ {
 			if c+altCost(p, alt) > x.Bound {
 				continue
+			}
+			if root && x.NShards > 1 {
+				x.topAlt++
+				if x.topAlt%x.NShards != x.Shard {
+					continue
+				}
 			}
 			np := append(append(make([]int, 0, i+1), choices[:i]...), alt)
 			x.explore(np)
